@@ -354,34 +354,61 @@ pub mod support {
 }'''
 
 
-def build_crate(prog, cache, repo, timeout=900):
-    """Writes and compiles the crate (offline, shared target dir); returns (exe path or None, log)."""
+HARNESS_PROFILE = """[profile.dev]
+opt-level = 0
+debug = false
+overflow-checks = true
+debug-assertions = true
+
+[profile.dev.package."*"]
+opt-level = 1
+
+[profile.release]
+overflow-checks = false
+debug-assertions = false
+"""
+
+
+def crate_dir(prog, cache):
     src = prog.source()
     h = hashlib.sha256((prog.crate + "\n" + src).encode()).hexdigest()[:12]
-    d = os.path.join(cache, "e2e", prog.crate + "-" + h)
+    return os.path.join(cache, "e2e", prog.crate + "-" + h), src
+
+
+def build_crate(prog, cache, repo, timeout=900, target=None):
+    """Writes and compiles the crate offline.  The crate uses the same profile, the same rustflags
+    (.cargo/config.toml copied from harness/hx-run) and the same cargo target dir as the harness crates, so divan and
+    its dependencies (clap, regex-lite, syn, ...) are compiled once for harness and generated crates together;
+    a generated crate then costs only its own compilation.  Returns (exe path or None, log)."""
+    import shutil
+    d, src = crate_dir(prog, cache)
+    target = target or os.path.join(cache, "target")
     os.makedirs(os.path.join(d, "src"), exist_ok=True)
+    os.makedirs(os.path.join(d, ".cargo"), exist_ok=True)
     with open(os.path.join(d, "src", "main.rs"), "w") as f:
         f.write(src)
     with open(os.path.join(d, "Cargo.toml"), "w") as f:
         f.write('[package]\nname = "%s"\nversion = "0.0.0"\nedition = "2021"\npublish = false\n\n[dependencies]\ndivan = { path = "%s" }\n\n'
-                '[profile.dev]\nopt-level = 0\ndebug = false\n\n[workspace]\n' % (prog.crate, repo))
+                '%s\n[workspace]\n' % (prog.crate, repo, HARNESS_PROFILE))
+    here = os.path.dirname(os.path.dirname(os.path.dirname(os.path.abspath(__file__))))
+    shutil.copy(os.path.join(here, "harness", "hx-run", ".cargo", "config.toml"), os.path.join(d, ".cargo", "config.toml"))
     lock = os.path.join(d, "Cargo.lock")
     if not os.path.exists(lock):
-        import shutil
         shutil.copy(os.path.join(repo, "Cargo.lock"), lock)
-    env = dict(os.environ, CARGO_NET_OFFLINE="true", CARGO_TARGET_DIR=os.path.join(cache, "e2e-target"))
+    env = dict(os.environ, CARGO_NET_OFFLINE="true", CARGO_TARGET_DIR=target)
     env.pop("RUSTFLAGS", None)
+    out = os.path.join(d, "exe")
     try:
         p = subprocess.run(["cargo", "build", "--offline", "-q"], cwd=d, env=env, timeout=timeout,
                            stdout=subprocess.PIPE, stderr=subprocess.PIPE, text=True)
     except subprocess.TimeoutExpired:
         return None, "cargo build timed out"
-    exe = os.path.join(cache, "e2e-target", "debug", prog.crate)
+    exe = os.path.join(target, "debug", prog.crate)
     if p.returncode != 0 or not os.path.exists(exe):
+        if os.path.exists(out):
+            os.remove(out)
         return None, (p.stdout + p.stderr)[-3000:]
-    # keep a private copy: the shared target dir is overwritten by the next crate of the same name
-    out = os.path.join(d, "exe")
-    import shutil
+    # keep a private copy: the shared target dir may be overwritten by another crate of the same name
     shutil.copy(exe, out)
     return out, ""
 
@@ -390,7 +417,7 @@ def build_crate(prog, cache, repo, timeout=900):
 # random programs
 # ---------------------------------------------------------------------------
 FN_POOL = ["alpha", "beta", "r#loop", "r#type", "sort_x2", "sort_x10", "Upper", "z9", "gamma", "delta", "r#fn", "eps"]
-MOD_POOL = ["m", "inner", "r#mod", "grp", "x1", "x10", "Deep", "q"]
+MOD_POOL = ["m", "inner", "r#mod", "grp", "x1", "x10", "Deep", "q", "r#match", "r#use"]
 NAMES = ["custom name", "x::y", "alpha", "<T>", "n.1", "ü", "a,b", "01"]
 STRV = ["a", "b c", "x::y", "ü", "1.5", "01", "A", "é~", "q%"]
 
@@ -491,7 +518,12 @@ def rand_items(rng, depth, budget):
             if budget[0] <= 0:
                 break
             g = None
-            if rng.random() < 0.55:
+            if raw.startswith("r#"):
+                # raw-identifier group modules always carry something observable: ignore and/or a custom name
+                k = rng.random()
+                g = dict(name=rng.choice(NAMES) if k < 0.6 else None,
+                         opts=dict(ignore=True, attr=rng.random() < 0.5) if k > 0.3 else None)
+            elif rng.random() < 0.55:
                 g = dict(name=rng.choice(NAMES) if rng.random() < 0.35 else None, opts=rand_opts_decl(rng, 0.6))
             sub = rand_items(rng, depth + 1, budget)
             if sub:
@@ -526,6 +558,14 @@ def feature_tour(crate):
                                group=dict(name="Group Two", opts=dict(ignore=True)))]),
         M("g", [F("x"), F("nf", opts=dict(ignore=False, explicit=True))], group=dict(opts=dict(ignore=True, attr=True))),
         M("r#mod", [F("in_raw_mod")], group=dict(opts=dict(sample_count=3))),
+        # raw-identifier bench_group modules whose attributes are observable: ignore, custom name, nesting
+        M("r#loop", [F("in_raw_ignored"), F("raw_override", opts=dict(ignore=False, explicit=True)),
+                     F("raw_args", args=("arr_i", [1, 2]))], group=dict(opts=dict(ignore=True))),
+        M("r#type", [F("in_raw_named"), F("raw_gen", types=[0, 1])], group=dict(name="Raw Named")),
+        M("outer_g", [F("o1"),
+                      M("r#fn", [F("nested_raw"), M("r#match", [F("raw_in_raw")], group=dict(name="Inner Raw", opts=dict(ignore=False, explicit=True)))],
+                        group=dict(name="Raw In Group", opts=dict(ignore=True, attr=True)))],
+          group=dict(name="Outer G")),
         dict(k="N", fname="outer_fn", items=[F("nested_in_fn")]),
     ]
     return Prog(crate, items)
